@@ -858,32 +858,48 @@ def rule_r5(ctx) -> List[R.Inst]:
     fn = _rfn(ctx, SNAPPER + ".snap")
     file = M.mods[fn.mod].rel
     insts = []
-    ld = local_defs(fn.node, "left_diff")
-    tup = [n for n in walk_no_nested(fn.node) if isinstance(n, ast.Assign) and isinstance(n.targets[0], ast.Tuple) and
-           [unparse(t) for t in n.targets[0].elts] == ["left_diff", "right_diff"]]
-    if len(tup) != 1 or not isinstance(tup[0].value, ast.Tuple):
+    # the step to the left neighbour: `if <left distance> < <right distance>: ix -= 1` — the distances named first
+    # (left_diff, right_diff = ..) or written in the test itself, the test possibly conjoined with `ix != 0`
+    named = {}
+    for n in walk_no_nested(fn.node):
+        if isinstance(n, ast.Assign) and isinstance(n.targets[0], ast.Tuple) and isinstance(n.value, ast.Tuple) and \
+                len(n.targets[0].elts) == len(n.value.elts):
+            for t_, v_ in zip(n.targets[0].elts, n.value.elts):
+                if isinstance(t_, ast.Name):
+                    named.setdefault(t_.id, []).append(v_)
+        elif isinstance(n, ast.Assign) and isinstance(n.targets[0], ast.Name):
+            named.setdefault(n.targets[0].id, []).append(n.value)
+
+    def _val(e):
+        return named[e.id][0] if isinstance(e, ast.Name) and len(named.get(e.id, [])) == 1 else e
+    steps = []
+    for n in walk_no_nested(fn.node):
+        if isinstance(n, ast.If) and any(isinstance(s_, ast.AugAssign) and unparse(s_.target) == "ix" and isinstance(s_.op, ast.Sub) and
+                                         unparse(s_.value) == "1" for s_ in n.body):
+            conj = n.test.values if isinstance(n.test, ast.BoolOp) and isinstance(n.test.op, ast.And) else [n.test]
+            cmps = [c for c in conj if isinstance(c, ast.Compare) and len(c.ops) == 1 and isinstance(c.ops[0], (ast.Lt, ast.LtE, ast.Gt, ast.GtE))]
+            if len(cmps) == 1:
+                steps.append((n, cmps[0]))
+    if len(steps) != 1:
         return [R.undec(rid, "Snapper.snap", file, fn.node.lineno, "left/right distance computation not recognised")]
-    l, r = tup[0].value.elts
+    ifn, cmp_ = steps[0]
     lf = lambda n: {"self.val[ix - 1]": "L", "self.val[ix]": "Rr", "rem": "x"}.get(unparse(n))   # noqa: E731
-    good = sym.canon(l, lf).same(sym.parse("x - L")) and sym.canon(r, lf).same(sym.parse("Rr - x"))
-    insts.append(R.ok(rid, "Snapper.snap:distances", file, tup[0].lineno, idiom="left = x - val[ix-1], right = val[ix] - x") if good else
-                 R.viol(rid, "Snapper.snap:distances", file, tup[0].lineno,
-                        "the distances to the two neighbouring fractions must be x - left neighbour and right neighbour - x",
-                        construct=unparse(tup[0])))
-    ifs = [n for n in walk_no_nested(fn.node) if isinstance(n, ast.If) and isinstance(n.test, ast.Compare) and
-           {unparse(n.test.left), unparse(n.test.comparators[0])} == {"left_diff", "right_diff"}]
-    if len(ifs) == 1:
-        t = ifs[0].test
-        dec = [s for s in ifs[0].body if isinstance(s, ast.AugAssign) and unparse(s.target) == "ix" and isinstance(s.op, ast.Sub)]
-        left_smaller = (unparse(t.left) == "left_diff" and isinstance(t.ops[0], (ast.Lt, ast.LtE))) or \
-                       (unparse(t.left) == "right_diff" and isinstance(t.ops[0], (ast.Gt, ast.GtE)))
-        if dec and left_smaller:
-            insts.append(R.ok(rid, "Snapper.snap:choice", file, ifs[0].lineno, idiom="step to the left neighbour iff it is nearer"))
+    a_, b_ = sym.canon(_val(cmp_.left), lf), sym.canon(_val(cmp_.comparators[0]), lf)
+    L_, R_ = sym.parse("x - L"), sym.parse("Rr - x")
+    smaller_first = isinstance(cmp_.ops[0], (ast.Lt, ast.LtE))
+    if (a_.same(L_) and b_.same(R_)) or (a_.same(R_) and b_.same(L_)):
+        insts.append(R.ok(rid, "Snapper.snap:distances", file, cmp_.lineno, idiom="left = x - val[ix-1], right = val[ix] - x"))
+        left_smaller = (a_.same(L_) and smaller_first) or (a_.same(R_) and not smaller_first)
+        if left_smaller:
+            insts.append(R.ok(rid, "Snapper.snap:choice", file, ifn.lineno, idiom="step to the left neighbour iff it is nearer"))
         else:
-            insts.append(R.viol(rid, "Snapper.snap:choice", file, ifs[0].lineno,
-                                "the left neighbour must be chosen exactly when it is the nearer one", construct=unparse(ifs[0].test)))
+            insts.append(R.viol(rid, "Snapper.snap:choice", file, ifn.lineno,
+                                "the left neighbour must be chosen exactly when it is the nearer one", construct=unparse(cmp_)))
     else:
-        insts.append(R.undec(rid, "Snapper.snap:choice", file, fn.node.lineno, "nearest-neighbour choice not recognised"))
+        insts.append(R.viol(rid, "Snapper.snap:distances", file, cmp_.lineno,
+                            "the distances to the two neighbouring fractions must be x - left neighbour and right neighbour - x",
+                            construct=f"{unparse(_val(cmp_.left))} ; {unparse(_val(cmp_.comparators[0]))}"))
+        insts.append(R.undec(rid, "Snapper.snap:choice", file, ifn.lineno, "nearest-neighbour choice not decided: the distances are not the expected ones"))
     # bisect over the sorted value table; table sorted at construction
     init = M.fn(SNAPPER + ".__init__")
     srt = [n for n in walk_no_nested(init.node) if isinstance(n, ast.Call) and call_name(n) == "argsort"]
@@ -912,13 +928,65 @@ def _snapper_table_complete(M, init, rid, file) -> List[R.Inst]:
     node = init.node
     blanks = [n for n in walk_no_nested(node) if isinstance(n, ast.Assign) and len(n.targets) == 1 and isinstance(n.targets[0], ast.Subscript) and
               isinstance(n.targets[0].value, ast.Name) and unparse(n.value) in ("np.nan", "nan", "numpy.nan", "float('nan')", "math.nan")]
-    if not blanks:
-        return [R.undec(rid, key, file, node.lineno, "construction of the fraction table not recognised")]
     idx = {}     # names of the index arrays: den, num = np.indices(..); den += 1
     for n in walk_no_nested(node):
         if isinstance(n, ast.Assign) and isinstance(n.targets[0], ast.Tuple) and len(n.targets[0].elts) == 2 and isinstance(n.value, ast.Call) and \
                 call_name(n.value) == "indices" and all(isinstance(t, ast.Name) for t in n.targets[0].elts):
             idx = {"den": n.targets[0].elts[0].id, "num": n.targets[0].elts[1].id}
+    if not blanks and idx:
+        # selection form: keep = (num > 0) & (num < den); keep[0, 0] = True; num, den = num[keep], den[keep]; unique(num / den) —
+        # the mask may only drop what lies outside the triangle (num >= den; 1 is appended afterwards) and the zero column (0/1 kept)
+        nu, de = idx["num"], idx["den"]
+        sel = {}
+        for n in walk_no_nested(node):
+            pairs_ = []
+            if isinstance(n, ast.Assign) and isinstance(n.targets[0], ast.Tuple) and isinstance(n.value, ast.Tuple) and len(n.targets[0].elts) == len(n.value.elts):
+                pairs_ = list(zip(n.targets[0].elts, n.value.elts))
+            elif isinstance(n, ast.Assign) and len(n.targets) == 1:
+                pairs_ = [(n.targets[0], n.value)]
+            for t_, v_ in pairs_:
+                if isinstance(t_, ast.Name) and t_.id in (nu, de) and isinstance(v_, ast.Subscript) and isinstance(v_.value, ast.Name) and \
+                        v_.value.id == t_.id and isinstance(v_.slice, ast.Name):
+                    sel[t_.id] = (v_.slice.id, n)
+        if set(sel) == {nu, de} and len({m for m, _ in sel.values()}) == 1:
+            mname = sel[nu][0]
+            mdefs = [n for n in walk_no_nested(node) if isinstance(n, ast.Assign) and len(n.targets) == 1 and isinstance(n.targets[0], ast.Name) and
+                     n.targets[0].id == mname]
+            uniq = any(isinstance(n, ast.Call) and call_name(n) == "unique" for n in walk_no_nested(node))
+            if len(mdefs) == 1 and uniq:
+                def conj(e):
+                    return conj(e.left) + conj(e.right) if isinstance(e, ast.BinOp) and isinstance(e.op, ast.BitAnd) else [e]
+                zero_col = {f"{nu}>0", f"0<{nu}", f"{nu}!=0", f"{nu}>=1"}
+                triangle = {f"{nu}<{de}", f"{de}>{nu}"}
+                cs = [unparse(c).replace(" ", "") for c in conj(mdefs[0].value)]
+                other = [c for c in cs if c not in zero_col | triangle]
+                readd = any(isinstance(n, ast.Assign) and unparse(n.targets[0]).replace(" ", "") == f"{mname}[0,0]" and unparse(n.value) == "True"
+                            for n in walk_no_nested(node))
+                if other:
+                    import re as _re
+
+                    def _drops(c):
+                        # a conjunct that demonstrably removes a proper fraction: num > K / num >= K+1 / den > K / den >= K+1 (K >= 1), x != K
+                        m = _re.fullmatch(rf"({nu}|{de})(>=|>|!=)(\d+)", c)
+                        if not m:
+                            return False
+                        k = int(m.group(3))
+                        return (m.group(2) == ">" and k >= 1) or (m.group(2) == ">=" and k >= 2) or (m.group(2) == "!=" and k >= 1)
+                    wide = [c for c in other if _drops(c)]
+                    if wide:
+                        return [R.viol(rid, key, file, mdefs[0].lineno,
+                                       f"the mask '{unparse(mdefs[0].value)[:70]}' keeps fewer cells than the proper fractions ('{wide[0]}'): a position "
+                                       f"of the snap grid disappears, and an object exactly on it is moved to a neighbouring fraction",
+                                       construct=f"Snapper table: {unparse(mdefs[0])[:100]}")]
+                    return [R.undec(rid, key, file, mdefs[0].lineno, f"mask conjunct '{other[0]}' not recognised")]
+                if any(c in zero_col for c in cs) and not readd:
+                    return [R.viol(rid, key, file, mdefs[0].lineno,
+                                   "the mask drops the whole zero column and 0/1 is not put back: position 0 of the grid disappears",
+                                   construct=f"Snapper table: {unparse(mdefs[0])[:100]}")]
+                return [R.ok(rid, key, file, mdefs[0].lineno,
+                             idiom="the mask keeps every proper fraction and 0/1; unique() drops repeated values only")]
+    if not blanks:
+        return [R.undec(rid, key, file, node.lineno, "construction of the fraction table not recognised")]
     bad, und = [], []
     for b in blanks:
         sl = b.targets[0].slice
